@@ -136,7 +136,7 @@ impl Property for C02 {
     fn components_real(&self) -> Vec<&'static str> { vec!["production::ShardedActorState<T> all GET/SET entry paths and execute()", "ShardActor tasks (tokio::spawn) with their CommandExecutors, unbounded mailboxes", "ResponsePool/ResponseSlot (pooled paths)", "Lua scripting through EVAL", "production parser Command::from_resp_zero_copy"] }
     fn components_stubbed(&self) -> Vec<&'static str> { vec!["clients are harness futures calling the ShardedActorState API (connection-level concurrency is exercised in C04/C05)", "single OS thread: interleavings are at the granularity of process polls x mailbox arrivals, not of machine instructions"] }
     fn assumptions(&self) -> Vec<&'static str> { vec!["a multi-key command is required to be atomic per key only (it contributes one sub-operation per key sharing its interval)", "error replies are compared as 'an error', not by text"] }
-    fn required_probes(&self) -> Vec<&'static str> { vec!["overlapping_ops_same_key", "cancel_mid_flight", "pooled_path_used", "script_overlapped_write", "connection_level_run"] }
+    fn required_probes(&self) -> Vec<&'static str> { vec!["overlapping_ops_same_key", "cancel_mid_flight", "pooled_path_used", "script_overlapped_write", "connection_level_run", "replicated_node_run"] }
     fn runs(&self, tier: Tier) -> u64 { match tier { Tier::Quick => 300000, Tier::Thorough => 6000000 } }
 
     fn run(&self, src: &mut Src, ctx: &RunCtx) -> RunReport {
@@ -152,6 +152,11 @@ impl Property for C02 {
         // every third run the clients are connections: the production handler on a SimStream each
         let conn = src.below(3) == 0;
         let depth = if conn { 1 + src.below(3) as usize } else { 1 };
+        // a fifth of the other runs take the node the persistent server runs (ReplicatedShardedState, 16 replicated shard
+        // actors) as the system under test, half of them with an always-fsync WAL on a simulated disk, which puts a group
+        // commit between a command's execution on its shard and its reply
+        let repl = !conn && src.below(5) == 0;
+        let repl_wal = repl && src.chance(1, 2);
         let ccfg = ConnectionConfig { max_buffer_size: 1 << 20, read_buffer_size: *src.pick(&[8192usize, 16, 64]), min_pipeline_buffer: *src.pick(&[60usize, 0, 15]), batch_threshold: *src.pick(&[2usize, 1, 3]) };
         let mut uniq = 0u64;
         let mut plans: Vec<Vec<Op>> = Vec::new();
@@ -242,6 +247,15 @@ impl Property for C02 {
                 verif_hooks::clock::clear();
                 return (sched.steps, sched.order_fp, cancelled);
             }
+            let node: Option<Rc<redis_sim::production::ReplicatedShardedState<SimClock>>> = if repl {
+                let mut n = redis_sim::production::ReplicatedShardedState::with_time_source(crate::model::cluster::repl_config(1, redis_sim::replication::ConsistencyLevel::Eventual), clock.clone());
+                if repl_wal {
+                    use redis_sim::streaming::{spawn_wal_actor, FsyncPolicy, WalConfig};
+                    let cfg = WalConfig { enabled: true, wal_dir: "/nonexistent".into(), fsync_policy: FsyncPolicy::Always, max_file_size: 4096, group_commit_max_entries: 4, group_commit_max_wait: std::time::Duration::from_micros(200), truncation_check_interval: std::time::Duration::from_secs(30) };
+                    if let Ok((h, _)) = spawn_wal_actor(crate::simkit::disk::SimWalStore::new(crate::simkit::disk::Seq::default()), cfg) { n.set_wal_handle(h); }
+                }
+                Some(Rc::new(n))
+            } else { None };
             let mut perf = PerformanceConfig::default();
             perf.num_shards = nshards; perf.response_pool.capacity = cap; perf.response_pool.prewarm = prewarm;
             let mut scfg = ShardConfig::with_shards(nshards);
@@ -251,12 +265,16 @@ impl Property for C02 {
             let inflight: Vec<Rc<Cell<bool>>> = (0..nclients).map(|_| Rc::new(Cell::new(false))).collect();
             for (c, plan) in plans.iter().enumerate() {
                 let st = state.clone(); let recs = recs.clone(); let seq = seq.clone(); let fl = inflight[c].clone(); let plan = plan.clone();
+                let node = node.clone();
                 sched.add(format!("client{}", c), async move {
                     for op in plan {
                         let inv = { seq.set(seq.get() + 1); seq.get() };
                         let idx = { let mut r = recs.borrow_mut(); r.push(Rec { client: c, op: op.clone(), inv, ret: None, replies: None }); r.len() - 1 };
                         fl.set(true);
-                        let replies = exec_op(&st, &op).await;
+                        let replies = match &node {
+                            Some(n) => { let r = match parse_cmd(&wire_op(&op)) { Ok(cmd) => R::from_resp(&n.execute(cmd).await), Err(e) => R::Err(e) }; wire_replies(&op, r) }
+                            None => exec_op(&st, &op).await,
+                        };
                         fl.set(false);
                         let ret = { seq.set(seq.get() + 1); seq.get() };
                         let mut r = recs.borrow_mut(); r[idx].ret = Some(ret); r[idx].replies = Some(replies);
@@ -280,6 +298,7 @@ impl Property for C02 {
         rep.steps = steps;
         if cancelled > 0 { rep.probe_n("cancel_mid_flight", cancelled); rep.fault(if conn { "connection_dropped_mid_operation" } else { "client_cancelled_mid_operation" }); }
         if conn { rep.probe("connection_level_run"); }
+        if repl { rep.probe("replicated_node_run"); if repl_wal { rep.probe("replicated_node_with_wal_group_commit"); } }
         for _ in 0..stalls.get() { rep.fault("shard_stalled"); }
         let recs = recs.borrow().clone();
         if ctx.trace {
